@@ -179,7 +179,8 @@ func (t *Tools) Run(argv []string, stdin string) kern.ToolResult {
 	}
 	switch t.fault(tool, stdin) {
 	case TFKilled:
-		return kern.ToolResult{Signaled: true, Stderr: []byte("Killed\n")}
+		// a process killed by a signal writes nothing itself (the "Killed" line is the parent shell's)
+		return kern.ToolResult{Signaled: true}
 	case TFKilledOutput:
 		// part of the regular output was written before the signal arrived
 		cut := len(stdout) / 2
